@@ -8,17 +8,18 @@ package httpserver
 pred full(fs *ipfilter.IPFilters) := cap(fs.filters) == len(fs.filters)
 
 func newIPFilterChain(parentIPFilters *ipfilter.IPFilters, childSpec *ipfilter.Spec) (chain *ipfilter.IPFilters)
-  requires parent-wf: parentIPFilters != nil ==> ipfilter.wfFilters(parentIPFilters) && full(parentIPFilters)
+  requires parent-wf: parentIPFilters != nil ==> ipfilter.wfFilters(parentIPFilters) && full(parentIPFilters) && chainAllocated(parentIPFilters)
   ensures empty-chain-is-nil: (parentIPFilters == nil || len(parentIPFilters.filters) == 0) && childSpec == nil ==> chain == nil
   ensures nonempty: chain != nil ==> fresh(chain) && ipfilter.wfFilters(chain) && full(chain) && len(chain.filters) >= 1
   ensures parent-prefix: chain != nil && parentIPFilters != nil ==> len(chain.filters) == len(parentIPFilters.filters) + (childSpec != nil ? 1 : 0) && (forall k int :: 0 <= k && k < len(parentIPFilters.filters) ==> chain.filters[k] == parentIPFilters.filters[k])
   ensures no-parent: chain != nil && parentIPFilters == nil ==> len(chain.filters) == 1
   ensures child-last: chain != nil && childSpec != nil ==> chain.filters[len(chain.filters) - 1].spec == childSpec && fresh(chain.filters[len(chain.filters) - 1])
+  ensures allocated: chainAllocated(chain)
   ensures chain-exists: childSpec != nil || (parentIPFilters != nil && len(parentIPFilters.filters) > 0) ==> chain != nil
 
 func newIPFilter(spec *ipfilter.Spec) (f *ipfilter.IPFilter)
   ensures spec == nil ==> f == nil
-  ensures spec != nil ==> fresh(f) && ipfilter.wfFilter(f) && f.spec == spec
+  ensures spec != nil ==> fresh(f) && allocated(f) && ipfilter.wfFilter(f) && f.spec == spec
 
 func allowIP(ipFilter *ipfilter.IPFilter, ip string) (ok bool)
   requires ipFilter != nil ==> ipfilter.wfFilter(ipFilter)
@@ -102,4 +103,62 @@ func (mi *muxInstance) search(req *httpprot.Request) (res *route)
   invariant[2] none-before: forall i, j int :: inRange(mi, i, j) && before(i, j, idx$1, idx$2) ==> !entryOK(mi.rules[i].paths[j], mi.rules[i], req)
   invariant[2] header-flag: headerMismatch <==> (exists i, j int :: inRange(mi, i, j) && before(i, j, idx$1, idx$2) && hdrMiss(mi.rules[i].paths[j], mi.rules[i], req))
   invariant[2] method-flag: methodMismatch <==> (exists i, j int :: inRange(mi, i, j) && before(i, j, idx$1, idx$2) && mthMiss(mi.rules[i].paths[j], mi.rules[i], req))
+
+// ---- building a new routing generation (C11 / C12 / C05) ----
+pred chainLen(c *ipfilter.IPFilters) := c == nil ? 0 : len(c.filters)
+pred chainAllocated(c *ipfilter.IPFilters) := c != nil ==> allocated(c) && allocated(ref(c.filters)) && (forall q int :: 0 <= q && q < len(c.filters) ==> allocated(c.filters[q]))
+pred specAt(c *ipfilter.IPFilters, k int) := c.filters[k].spec
+// the chain checked on a cached route holds exactly the filters of the server, the rule and the path, in that order
+pred pathChainOK(c *ipfilter.IPFilters, sv *ipfilter.Spec, ru *ipfilter.Spec, pa *ipfilter.Spec) := chainLen(c) == (sv != nil ? 1 : 0) + (ru != nil ? 1 : 0) + (pa != nil ? 1 : 0) && (sv != nil ==> specAt(c, 0) == sv) && (ru != nil ==> specAt(c, (sv != nil ? 1 : 0)) == ru) && (pa != nil ==> specAt(c, chainLen(c) - 1) == pa)
+
+func (h *Header) initHeaderRoute()
+  flag allocates
+  requires h != nil
+  modifies h.headerRE
+  ensures h.headerRE != nil
+
+func newMuxPath(parentIPFilters *ipfilter.IPFilters, path *Path) (mp *MuxPath)
+  flag allocates
+  requires path != nil && (forall k int :: 0 <= k && k < len(path.Headers) ==> path.Headers[k] != nil)
+  requires parent-wf: parentIPFilters != nil ==> ipfilter.wfFilters(parentIPFilters) && full(parentIPFilters) && chainAllocated(parentIPFilters)
+  modifies allof("object/httpserver.Header.headerRE")
+  ensures mp != nil && fresh(mp) && mp.path == path.Path && mp.pathPrefix == path.PathPrefix && mp.backend == path.Backend && mp.rewriteTarget == path.RewriteTarget && mp.clientMaxBodySize == path.ClientMaxBodySize && mp.matchAllHeader == path.MatchAllHeader && ref(mp.headers) == ref(path.Headers) && len(mp.headers) == len(path.Headers) && ref(mp.methods) == ref(path.Methods) && len(mp.methods) == len(path.Methods)
+  ensures own-filter: (path.IPFilter == nil ==> mp.ipFilter == nil) && (path.IPFilter != nil ==> mp.ipFilter != nil && mp.ipFilter.spec == path.IPFilter && ipfilter.wfFilter(mp.ipFilter))
+  ensures chain-is-parent-plus-own: chainLen(mp.ipFilterChain) == chainLen(parentIPFilters) + (path.IPFilter != nil ? 1 : 0) && (mp.ipFilterChain != nil ==> ipfilter.wfFilters(mp.ipFilterChain)) && (forall k int :: 0 <= k && k < chainLen(parentIPFilters) ==> mp.ipFilterChain.filters[k] == parentIPFilters.filters[k]) && (path.IPFilter != nil ==> specAt(mp.ipFilterChain, chainLen(mp.ipFilterChain) - 1) == path.IPFilter)
+  ensures allocated: allocated(mp) && chainAllocated(mp.ipFilterChain) && (mp.ipFilter != nil ==> allocated(mp.ipFilter))
+  ensures headers-compiled: forall k int :: 0 <= k && k < len(path.Headers) ==> path.Headers[k].headerRE != nil
+  invariant[1] forall k int :: 0 <= k && k < idx$1 ==> path.Headers[k].headerRE != nil
+
+func newMuxRule(parentIPFilters *ipfilter.IPFilters, rule *Rule, paths []*MuxPath) (mr *muxRule)
+  flag allocates
+  requires rule != nil
+  requires parent-wf: parentIPFilters != nil ==> ipfilter.wfFilters(parentIPFilters) && full(parentIPFilters) && chainAllocated(parentIPFilters)
+  ensures mr != nil && fresh(mr) && allocated(mr) && (mr.ipFilter != nil ==> allocated(mr.ipFilter)) && mr.host == rule.Host && ref(mr.paths) == ref(paths) && len(mr.paths) == len(paths)
+  ensures own-filter: (rule.IPFilter == nil ==> mr.ipFilter == nil) && (rule.IPFilter != nil ==> mr.ipFilter != nil && mr.ipFilter.spec == rule.IPFilter && ipfilter.wfFilter(mr.ipFilter))
+
+// the specification of the route table built from a spec: one rule object per spec rule, one path
+// object per spec path, each path's cached-route chain = [server filter, rule filter, path filter]
+pred ruleBuilt(r *muxRule, sr *Rule, sv *ipfilter.Spec) := r != nil && allocated(r) && allocated(ref(r.paths)) && (r.ipFilter != nil ==> allocated(r.ipFilter)) && r.host == sr.Host && len(r.paths) == len(sr.Paths) && ((sr.IPFilter == nil) <==> (r.ipFilter == nil)) && (r.ipFilter != nil ==> r.ipFilter.spec == sr.IPFilter) && (forall j int :: 0 <= j && j < len(sr.Paths) ==> r.paths[j] != nil && allocated(r.paths[j]) && chainAllocated(r.paths[j].ipFilterChain) && (r.paths[j].ipFilter != nil ==> allocated(r.paths[j].ipFilter)) && r.paths[j].backend == sr.Paths[j].Backend && r.paths[j].path == sr.Paths[j].Path && r.paths[j].pathPrefix == sr.Paths[j].PathPrefix && ((sr.Paths[j].IPFilter == nil) <==> (r.paths[j].ipFilter == nil)) && pathChainOK(r.paths[j].ipFilterChain, sv, sr.IPFilter, sr.Paths[j].IPFilter))
+pred specWF(s *Spec) := s != nil && (forall i int :: 0 <= i && i < len(s.Rules) ==> s.Rules[i] != nil && (forall j int :: 0 <= j && j < len(s.Rules[i].Paths) ==> s.Rules[i].Paths[j] != nil && (forall k int :: 0 <= k && k < len(s.Rules[i].Paths[j].Headers) ==> s.Rules[i].Paths[j].Headers[k] != nil)))
+
+func (m *mux) reload(superSpec *supervisor.Spec, muxMapper context.MuxMapper)
+  flag allocates
+  requires m != nil && superSpec != nil
+  requires spec-of-this-kind: typeIs(superSpec.objectSpec, "*Spec") && specWF(ptr(ifaceVal(superSpec.objectSpec), "*Spec"))
+  requires current-instance: typeIs(m.inst.v, "*muxInstance") && ifaceVal(m.inst.v) != 0 && ptr(ifaceVal(m.inst.v), "*muxInstance").spec != nil
+  modifies m.inst.v, allof("object/httpserver.Header.headerRE")
+  ensures new-generation-is-a-fresh-instance: typeIs(m.inst.v, "*muxInstance") && fresh(ptr(ifaceVal(m.inst.v), "*muxInstance")) && ptr(ifaceVal(m.inst.v), "*muxInstance").spec == ptr(ifaceVal(superSpec.objectSpec), "*Spec") && ptr(ifaceVal(m.inst.v), "*muxInstance").superSpec == superSpec
+  ensures route-cache-is-never-shared-between-generations: let ni = ptr(ifaceVal(m.inst.v), "*muxInstance") in (ni.cache == nil || fresh(ni.cache))
+  ensures server-filter: let ni = ptr(ifaceVal(m.inst.v), "*muxInstance") in ((ni.spec.IPFilter == nil) <==> (ni.ipFilter == nil)) && (ni.ipFilter != nil ==> ni.ipFilter.spec == ni.spec.IPFilter)
+  ensures route-table-built-from-the-spec: let ni = ptr(ifaceVal(m.inst.v), "*muxInstance") in (len(ni.rules) == len(ni.spec.Rules) && (forall i int :: 0 <= i && i < len(ni.spec.Rules) ==> ruleBuilt(ni.rules[i], ni.spec.Rules[i], ni.spec.IPFilter)))
+  invariant[1] inst != nil && fresh(inst) && inst.spec == spec && len(inst.rules) == len(spec.Rules) && fresh(inst.rules) && 0 <= i && i <= len(inst.rules) && specWF(spec)
+  invariant[1] server-chain: chainAllocated(inst.ipFilterChan) && chainLen(inst.ipFilterChan) == (spec.IPFilter != nil ? 1 : 0) && (inst.ipFilterChan != nil ==> ipfilter.wfFilters(inst.ipFilterChan) && full(inst.ipFilterChan) && specAt(inst.ipFilterChan, 0) == spec.IPFilter)
+  invariant[1] built: forall k int :: 0 <= k && k < i ==> ruleBuilt(inst.rules[k], spec.Rules[k], spec.IPFilter)
+  invariant[2] inst != nil && fresh(inst) && inst.spec == spec && len(inst.rules) == len(spec.Rules) && fresh(inst.rules) && 0 <= i && i < len(inst.rules) && specWF(spec) && specRule == spec.Rules[i] && fresh(paths) && len(paths) == len(specRule.Paths) && 0 <= j && j <= len(paths)
+  invariant[2] server-chain: chainAllocated(inst.ipFilterChan) && chainLen(inst.ipFilterChan) == (spec.IPFilter != nil ? 1 : 0) && (inst.ipFilterChan != nil ==> ipfilter.wfFilters(inst.ipFilterChan) && full(inst.ipFilterChan) && specAt(inst.ipFilterChan, 0) == spec.IPFilter)
+  invariant[2] rule-chain: chainAllocated(ruleIPFilterChain) && allocated(ref(paths)) && chainLen(ruleIPFilterChain) == chainLen(inst.ipFilterChan) + (specRule.IPFilter != nil ? 1 : 0) && (ruleIPFilterChain != nil ==> ipfilter.wfFilters(ruleIPFilterChain) && full(ruleIPFilterChain)) && (spec.IPFilter != nil ==> specAt(ruleIPFilterChain, 0) == spec.IPFilter) && (specRule.IPFilter != nil ==> specAt(ruleIPFilterChain, chainLen(ruleIPFilterChain) - 1) == specRule.IPFilter)
+  invariant[2] built: forall k int :: 0 <= k && k < i ==> ruleBuilt(inst.rules[k], spec.Rules[k], spec.IPFilter)
+  invariant[2] paths-built: forall q int :: 0 <= q && q < j ==> paths[q] != nil && allocated(paths[q]) && chainAllocated(paths[q].ipFilterChain) && (paths[q].ipFilter != nil ==> allocated(paths[q].ipFilter)) && paths[q].backend == specRule.Paths[q].Backend && paths[q].path == specRule.Paths[q].Path && paths[q].pathPrefix == specRule.Paths[q].PathPrefix && ((specRule.Paths[q].IPFilter == nil) <==> (paths[q].ipFilter == nil)) && pathChainOK(paths[q].ipFilterChain, spec.IPFilter, specRule.IPFilter, specRule.Paths[q].IPFilter)
+  closure[1] ()
+  end
 @*/
